@@ -46,7 +46,8 @@ fn programs(thorough: bool) -> Vec<Prog> {
     let none = || HashMap::new();
     // 1 straight line, short instructions at line ends
     {
-        let mut c = vec![label("start"), mov(r16("ax"), imm(5)), z(ZeroOp::Stc), bin(BinOp::Adc, r16("ax"), imm(3)), z(ZeroOp::Cmc)];
+        // the interrupt and direction flags are set first: a breakpoint (an INT like any other) must leave them alone
+        let mut c = vec![label("start"), z(ZeroOp::Sti), z(ZeroOp::Std), mov(r16("ax"), imm(5)), z(ZeroOp::Stc), bin(BinOp::Adc, r16("ax"), imm(3)), z(ZeroOp::Cmc)];
         finals(&mut c);
         add("straight", c, none(), false);
     }
